@@ -238,6 +238,33 @@ def run(ctx):
   for rec in recs:
     if falsify(rec):
       break
+  # features with a large common offset relative to their spread (timestamps, identifiers) and real-valued L: the decisions
+  # are functions of the DISTANCES (differences are exact here), so an exact mirror tie d(a,b) = d(a,c) decides -1 / 0
+  for j in range(120 if thorough else 40):
+    d = int(rng.integers(2, 6))
+    k = int(rng.integers(1, d + 1))
+    L = rng.standard_normal((k, d))
+    off = float([2.0 ** 30, 2.0 ** 40, 2.0 ** 20, 0.0][j % 4]) * (1.0 + np.arange(d))
+    m = 3 if j % 2 == 0 else 4
+    T = off + rng.integers(-64, 65, size=(int(rng.integers(2, 7)), m, d)) / 8.0
+    if m == 3:
+      T[0, 2] = 2 * T[0, 0] - T[0, 1]            # mirror tie (exactly representable)
+      rec = dict(kind='trip', estimator='SCML', L=L, T=T)
+    else:
+      T[0, 3] = T[0, 2] + (T[0, 0] - T[0, 1])    # d(c,d) = d(a,b) exactly
+      rec = dict(kind='quad', estimator='LSML', L=L, T=T)
+    ctx.hist('offset_lane', '%s offset 2^%d' % (rec['kind'], 0 if off[0] == 0 else int(np.log2(off[0]))))
+    est = host(rec['estimator'], d)
+    est.components_ = L
+    with warnings.catch_warnings():
+      warnings.simplefilter('ignore')
+      dec0, pred0 = est.decision_function(T)[0], est.predict(T)[0]
+    if dec0 != 0.0 or (m == 3 and pred0 != -1) or (m == 4 and pred0 != 0):
+      ctx.fail_input('decision_rule', rec['kind'] + ': tuple with exactly equal distances is not decided as a tie (decision %r, prediction %r)' % (float(dec0), int(pred0)),
+                     dict(kind=rec['kind'], estimator=rec['estimator'], L=L.tolist(), tuples=T.tolist()))
+      break
+    if falsify(rec):
+      break
   representation_lane(ctx, recs[:(400 if thorough else 90)])
 
 
